@@ -370,7 +370,8 @@ pub fn replay_corpus(ctx: &crate::engine::Ctx) {
         files.sort();
         let next = std::sync::atomic::AtomicUsize::new(0);
         let target = t.0;
-        crate::engine::shards(8, |_| loop {
+        // c03_parsers measures allocations with process-wide counters: one case at a time
+        crate::engine::shards(if target == "c03_parsers" { 1 } else { 8 }, |_| loop {
             let i = next.fetch_add(1, Ordering::SeqCst);
             if i >= files.len() || ctx.has_failed() {
                 break;
